@@ -474,6 +474,93 @@ fn operand_stack_boundary(ctx: &Ctx, active: &[Finding]) -> (usize, Vec<(String,
 /// back, a fiber - the number of pending values at the bottom of a 31-level recursion is first bisected for
 /// the point where the program starts to overflow (wherever the interpreter draws that line), then every
 /// count within 20 of it is run.
+/// The repository's own command-line host.  `yarel-cli` gives programs one native of its own,
+/// `read_file_to_string`, and runs them from a file or line by line.  Every tuple of 0-2 arguments from a pool
+/// (nil, numbers, strings naming a file, no file, a directory, a file that is not text, the empty string;
+/// containers; a class; the function itself) reaches that native by six routes (called directly, through a
+/// variable, through a field of an instance, through a vec element, as a map callback, inside a fiber), handled
+/// and not handled, as a script and typed into the REPL: the process never panics or dies of a signal - it
+/// ends with one of the host's own exit codes (0, 65, 70) and never mentions a panic.
+fn command_line_host(ctx: &Ctx) -> (usize, Vec<(String, serde_json::Value)>) {
+    let dir = crate::cli::scratch_dir(ctx, "c02");
+    let _ = std::fs::write(dir.join("text.txt"), b"some text\n");
+    let _ = std::fs::write(dir.join("bytes.bin"), [0xffu8, 0xfe, 0x00, 0x80]);
+    let _ = std::fs::create_dir_all(dir.join("a_directory"));
+    let pool = ["nil", "0", "-1", "1.5", "\"text.txt\"", "\"no_such_file.txt\"", "\"a_directory\"", "\"bytes.bin\"", "\"\"", "\"text.txt\\0\"", "[\"text.txt\"]", "(\"text.txt\",)", "{\"text.txt\": 1}", "String", "read_file_to_string", "|| \"text.txt\""];
+    let mut tuples: Vec<Vec<&str>> = vec![vec![]];
+    for a in pool {
+        tuples.push(vec![a]);
+    }
+    for a in pool {
+        for b in ["nil", "\"text.txt\"", "0"] {
+            tuples.push(vec![a, b]);
+        }
+    }
+    let mut cases: Vec<(String, bool)> = Vec::new();
+    for t in &tuples {
+        let args = t.join(", ");
+        let routes: Vec<String> = vec![
+            format!("print(read_file_to_string({}));", args),
+            format!("var f = read_file_to_string; print(f({}));", args),
+            format!("#[constructor(new)] class Box {{}} var b = Box.new(); b.read = read_file_to_string; print(b.read({}));", args),
+            format!("var v = [read_file_to_string]; print(v[0]({}));", args),
+        ];
+        for r in routes {
+            for handled in [true, false] {
+                let line = if handled { format!("try {{ {} }} catch e {{ print(type(e)); print(e.context); }} print(\"still running\");", r) } else { format!("{} print(\"still running\");", r) };
+                cases.push((line, handled));
+            }
+        }
+        // inside a fiber (an exception does not cross into the calling fiber, so the handler sits inside)
+        cases.push((format!("Fiber.new(|| {{ try {{ print(read_file_to_string({})); }} catch e {{ print(type(e)); print(e.context); }} }}).call(); print(\"still running\");", args), true));
+        cases.push((format!("print(Fiber.new(|| read_file_to_string({})).call()); print(\"still running\");", args), false));
+        if t.len() == 1 {
+            for handled in [true, false] {
+                let r = format!("print([{}].iter().map(read_file_to_string).collect());", t[0]);
+                let line = if handled { format!("try {{ {} }} catch e {{ print(type(e)); print(e.context); }} print(\"still running\");", r) } else { r };
+                cases.push((line, handled));
+            }
+        }
+    }
+    let n = cases.len() * 2;
+    let mut violations = Vec::new();
+    let results = crate::pool::par_map_plain(ctx.workers.min(8), cases.into_iter().enumerate(), |(i, (line, handled))| {
+        let sub = dir.join(format!("w{}", i % 64));
+        let _ = std::fs::create_dir_all(&sub);
+        let mut problems: Vec<(String, serde_json::Value)> = Vec::new();
+        // as a script (run in the scratch directory, the script in a worker directory of its own)
+        let script = sub.join(format!("probe{}.yl", i));
+        let _ = std::fs::write(&script, format!("{}\n", line));
+        let rel = format!("w{}/probe{}.yl", i % 64, i);
+        let r = crate::cli::run(ctx, &dir, &[rel.as_str()], None);
+        let bad = |r: &crate::cli::CliRun, codes: &[i32]| -> Option<String> {
+            if r.timed_out {
+                return Some("did not end".into());
+            }
+            match r.code {
+                None => Some(format!("killed by a signal; stderr {:?}", r.stderr.chars().take(300).collect::<String>())),
+                Some(c) if !codes.contains(&c) || r.stderr.contains("panicked at") => Some(format!("exit code {}; stderr {:?}", c, r.stderr.chars().take(300).collect::<String>())),
+                _ => None,
+            }
+        };
+        if let Some(p) = bad(&r, &[0, 65, 70]).or_else(|| if handled && !r.stdout.ends_with("still running\n") { Some(format!("the handled call did not let the program go on: printed {:?}, stderr {:?}, exit {:?}", r.stdout, r.stderr.chars().take(300).collect::<String>(), r.code)) } else { None }) {
+            problems.push((format!("[command-line host, script] {}: {}", line, p), json!({"family": "command_line_host", "cli_script": format!("{}\n", line), "problem": p})));
+        }
+        let _ = std::fs::remove_file(&script);
+        // typed into the REPL, followed by another line
+        let input = format!("{}\nprint(\"next line\");\n", line);
+        let r = crate::cli::run(ctx, &dir, &[], Some(&input));
+        if let Some(p) = bad(&r, &[0]).or_else(|| if !r.stdout.contains("next line") { Some(format!("the REPL did not run the next line: printed {:?}, stderr {:?}", r.stdout, r.stderr.chars().take(300).collect::<String>())) } else { None }) {
+            problems.push((format!("[command-line host, REPL] {}: {}", line, p), json!({"family": "command_line_host", "cli_stdin": input, "problem": p})));
+        }
+        problems
+    });
+    for p in results {
+        violations.extend(p);
+    }
+    (n, violations)
+}
+
 fn uncaught_overflow_at_frame_entry(ctx: &Ctx) -> (usize, Vec<(String, serde_json::Value)>) {
     let nils = |n: usize| vec!["nil"; n].join(", ");
     let leaves: Vec<(&'static str, &'static str, &'static str)> = vec![
@@ -731,6 +818,11 @@ pub fn run(ctx: &Ctx) -> Report {
     acc.violations.extend(boundary_violations);
     let (n_entry, entry_violations) = uncaught_overflow_at_frame_entry(ctx);
     let n = n + n_entry;
+    let (n_cli, cli_violations) = command_line_host(ctx);
+    let n = n + n_cli;
+    acc.evaluations += n_cli;
+    acc.violations.extend(cli_violations);
+    *acc.by_family.entry("command_line_host".into()).or_insert(0) += n_cli;
     acc.evaluations += n_entry;
     acc.violations.extend(entry_violations);
     *acc.by_family.entry("uncaught_overflow_at_frame_entry".into()).or_insert(0) += n_entry;
